@@ -342,7 +342,10 @@ def run(index: RepoIndex, rep) -> None:
     good = {f'pickle.loads(pickle.dumps({xp}))', f'copy.deepcopy({xp})', f'deepcopy({xp})',
             f'pickle.loads(pickle.dumps({xp}, protocol=pickle.HIGHEST_PROTOCOL))',
             f'pickle.loads(pickle.dumps({xp}, pickle.HIGHEST_PROTOCOL))'}
-    rep.check(len(b) == 1 and isinstance(b[0], ast.Return) and src(b[0].value) in good,
+    from ..inline import pure_body_expr as _pbe
+    from ..view import deep_copy_of as _dco
+    _fe = _pbe(fc.node)
+    rep.check((_fe is not None and (src(_fe) in good or _dco(index, fc.module, _fe, xp))),
               'C03.R1', FAST, 'fast_copy', fc.node.lineno, src(b[-1]),
               'fast_copy is not a deep copy (pickle round trip / copy.deepcopy): the copy '
               'would share mutable components with the original', 'fast_copy is deep')
